@@ -206,7 +206,7 @@ def schedule_distribution(cases):
 
 class C12(PropBase):
     pid = "C12"
-    translators = ["c12_structure.py"]
+    translators = ["c12_structure.py", "c12_program.py"]
     coq_dirs = ["C12"]
     bins = ["c12"]
     rule = ("case = (mode, tasks: lists of (module key, API or file kind), per key: suspensions, supplier answer, module identity "
@@ -242,6 +242,10 @@ class C12(PropBase):
         "futures-util's MutexLockFuture::poll race window (try_lock, register, try_lock) are trusted and only exercised (mode 5)",
         "translate/c12_structure.py (regex-level reading of get / get_symbols / module_key / file_key / locate_file_internal; aborts on "
         "statements it does not recognise) and coq/C12/Structure.v's reading of what each operation is in the model",
+        "translate/c12_program.py (statement-level reading of get, the two closures and the entry points into the instruction set of "
+        "C12/ProgModel.v; statements of an entry point that touch neither self nor an await count as pure uses of the awaited result; "
+        "aborts on any other statement) and ProgModel.istep's reading of what each instruction does (compared with the real code by "
+        "the correspondence run, which executes the interpreter)",
         "locate_file_internal: FileModel.v reads http.rs as cache_default(file_key).get(closure); the closure's answer is a function of the "
         "file key as long as distinct file keys do not share an on-disk cache path (mode 2 generates such keys); props/c12.py aborts when "
         "SymbolError / FileError / FileKind gain or lose a variant",
@@ -264,7 +268,17 @@ class C12(PropBase):
                 "schedule (c12_quiescent_observables_schedule_independent, c12_poll_schedule_independent); the source still has the "
                 "structure the model was written from — lock held across the await, counter increments around the supplier await, "
                 "four-component key, stats classification = Model.stat_loaded/stat_corrupt, no other writer of the counters "
-                "(c12_source_structure_modelled over the regenerated Gen/C12Structure.v). The model is tied to the real Symbolizer / "
+                "(c12_source_structure_modelled over the regenerated Gen/C12Structure.v). Round 5: the bodies of CachedAsyncResult::get, "
+                "of the closures of get_symbols and locate_file_internal and of the entry points fill_symbol / walk_frame / "
+                "get_symbol_at_address / HttpSymbolSupplier::locate_file (get_file_path delegates to it) are regenerated as "
+                "instruction lists (Gen/C12Program.v) and interpreted on the model's shared state (C12/ProgModel.v); the interpreter "
+                "on the regenerated program is the model poll for poll (c12_source_program_refines_model) and at-most-once, same "
+                "outcome for every requester through every entry point, completeness, exactly-once at quiescence, fair "
+                "termination, no panic/ill-formed continuation and the counter theorems are stated and proved for it "
+                "(c12_source_*): an edit of those bodies changes the program the theorems are about; the two seeded shapes (retry "
+                "after ParseError, non-waiting probe in walk_frame) are programs of the same instruction set on which the interpreter "
+                "refutes the property (c12_retry_program_refuted, c12_probe_program_refuted). The correspondence run of modes 0, 2, "
+                "5, 6, 7 executes that interpreter on the regenerated program. The model is tied to the real Symbolizer / "
                 "HttpSymbolSupplier by polling boxed futures in the case's order (exhaustive small spaces, random larger ones, "
                 "wake-driven, join_all flat/nested/>30 children, drops, loopback HTTP) and by real multi-threaded tokio runs (2..8 workers; "
                 "schedule-independent observables only) in debug and release; an independent oracle re-checks the property on "
